@@ -102,6 +102,7 @@ def run_case(cls, key, seed, ctx):
     cyt = gen.as_vec(yt, cont, rng)
     cyp = gen.as_vec(yp, cont, rng)
     cw = None if w is None else gen.as_vec(w, gen.pick(rng, ["list", "ndarray", "series"]), rng)
+    cw_col = None if w is None else (np.asarray(w, dtype=float).reshape(-1, 1) if rng.random() < 0.3 else cw)  # column-shaped weights
     kw = {}
     if pl is not None:
         kw["pos_label"] = pl
@@ -151,7 +152,7 @@ def run_case(cls, key, seed, ctx):
     if pl is not None:
         skw["pos_label"] = pl
     if cw is not None:
-        skw["sample_weight"] = cw
+        skw["sample_weight"] = cw_col
     sr = M.selection_rate(cyt, cyp, **skw)
     ctx.ev("aux_metric_checks")
     ctx.check(is_scalar_number(sr), "selection_rate_not_scalar", got=repr(sr), n=n, weighted=w is not None,
@@ -159,7 +160,7 @@ def run_case(cls, key, seed, ctx):
     ctx.check(close(np.asarray(sr, dtype=float).reshape(-1)[0], R.selection_rate(yp, pos, w), 1e-12, 1e-15) and np.size(sr) == 1,
               "selection_rate_value_mismatch", y_pred=yp, w=w, got=repr(sr), expected=R.selection_rate(yp, pos, w))
     if not isinstance(pos, str):
-        mkw = {} if cw is None else {"sample_weight": cw}
+        mkw = {} if cw is None else {"sample_weight": cw_col}
         mp = M.mean_prediction(cyt, cyp, **mkw)
         ctx.ev("aux_metric_checks")
         ctx.check(is_scalar_number(mp), "mean_prediction_not_scalar", got=repr(mp))
